@@ -218,6 +218,24 @@ class G:
         args = [{"t": "int", "v": 200000 + self.n_op}] + [self.cond_arg() for _ in range(nargs - 1)]
         return {"c": "opn", "op": {"k": "op", "name": name, "args": args, "ctx": None}}
 
+    def for_slot(self):
+        """init / increment statement of a for loop: any simple statement (the grammar's simple_stmt); continue / break /
+        break_loop are left out (whether they refer to this loop or to the enclosing construct is not specified)"""
+        k = self.i(0, 11)
+        if k < 8 or not self.use_labels:
+            return self.plain_simple()
+        if k == 8:
+            return {"k": "ctl", "v": self.pick(["return", "end", "hold"])}
+        if k == 9 and self.label_pool:
+            lab = self.pick(self.label_pool)
+            self.labels_used.add(lab)
+            return {"k": self.pick(["jump", "call"]), "label": lab}
+        undefined = [lab for lab in self.label_pool if lab not in self.labels_defined]
+        if k == 10 and undefined:
+            self.labels_defined.add(undefined[0])
+            return {"k": "label", "name": undefined[0]}
+        return self.plain_simple()
+
     def cond_arg(self):
         """argument of an operation used as condition / switch header: any parameter kind"""
         k = self.i(0, 8)
@@ -429,7 +447,7 @@ class G:
         if k == 19:
             return {"k": "while", "not": self.b(), "cond": self.cond(), "body": self.loop_body(depth)}
         if k == 20:
-            return {"k": "for", "init": self.plain_simple(), "cond": self.cond(), "inc": self.plain_simple(),
+            return {"k": "for", "init": self.for_slot(), "cond": self.cond(), "inc": self.for_slot(),
                     "body": self.loop_body(depth)}
         if k < 24:
             c = self.lone_control(in_loop, in_case)
